@@ -92,6 +92,9 @@ MUTANTS = [
            'res = !mont_is_equal(wp->a, wp->c, ctx);', 'res = mont_is_equal(wp->a, wp->c, ctx);', 'invert the on-curve test', expect='accept_iff'),
     Mutant('ed448_newpoint_skip_check', 'breaking', 'ed448.c', 'ed448', 'ed448_new_point', 'EXPORT_SYM int ed448_new_point(',
            'res = !mont_is_equal(wp->a, wp->c,  ctx);', 'res = 0 & mont_is_equal(wp->a, wp->c,  ctx);', 'disable the on-curve test (always accept)', expect='ed448_new_point'),
+    Mutant('ed25519_newpoint_refuse_all', 'breaking', 'ed25519.c', 'ed25519', 'ed25519_new_point', 'EXPORT_SYM int ed25519_new_point(',
+           'convert_be8_to_le25p5((*out)->X, x);', 'if (modsize == 32) { free(*out); *out = NULL; return ERR_EC_POINT; }\n    convert_be8_to_le25p5((*out)->X, x);',
+           'refuse every point before any test', expect='accepting_path_exists'),
     # ------------------------------------------------------------------ outside the subset: must be undecided, never violated
     Mutant('unsupported_unknown_callee', 'unsupported', 'ec_ws.c', 'ec_ws', 'ec_full_double', 'STATIC void ec_full_double(',
            'mont_add(z3, z3, z3, s, ctx);   /* 34 */', 'mont_shift_left(z3, z3, 1, ctx);', 'call a function that has neither a body here nor an assumed contract'),
@@ -118,6 +121,8 @@ MUTANTS = [
            'add32(B, P1->Y, P1->X);', 'add32(B, P1->X, P1->Y);', 'commute the operands of an addition'),
     Mutant('benign_x25519_commute_mult', 'benign', 'curve25519.c', 'curve25519', 'curve25519_ladder_step', 'STATIC void curve25519_ladder_step(',
            'mul_25519(z3, t0, x2);', 'mul_25519(z3, x2, t0);', 'commute the operands of a multiplication'),
+    Mutant('benign_ws_newpoint_len_test', 'benign', 'ec_ws.c', 'ec_ws', 'ec_ws_new_point', 'EXPORT_SYM int ec_ws_new_point(',
+           'if (len == 0)\n        return ERR_NOT_ENOUGH_DATA;', 'if (len < 1)\n        return ERR_NOT_ENOUGH_DATA;', 'spell the length validation differently'),
     Mutant('benign_ed448_reorder_independent', 'benign', 'ed448.c', 'ed448', 'ed448_add_internal', 'STATIC void ed448_add_internal(',
            'mont_mult(t2, x1, x2, s, ctx);      /* C = X1*X2 */\n    mont_mult(t3, y1, y2, s, ctx);      /* D = Y1*Y2 */',
            'mont_mult(t3, y1, y2, s, ctx);\n    mont_mult(t2, x1, x2, s, ctx);', 'reorder two independent statements'),
